@@ -35,15 +35,13 @@ def dft_upsample(
     du = np.ceil(1.5 * up).astype(int)
     row = np.arange(-du, du + 1)
     col = np.arange(-du, du + 1)
-    r_shift = shift[0] - M // 2
-    c_shift = shift[1] - N // 2
+    # signed frequency indices of the (corner-centred) Fourier array
+    f_row = xp.fft.fftfreq(M, 1 / M)
+    f_col = xp.fft.fftfreq(N, 1 / N)
 
-    kern_row = np.exp(
-        -2j * np.pi / (M * up) * np.outer(row, xp.fft.ifftshift(xp.arange(M)) - M // 2 + r_shift)
-    )
-    kern_col = np.exp(
-        -2j * np.pi / (N * up) * np.outer(xp.fft.ifftshift(xp.arange(N)) - N // 2 + c_shift, col)
-    )
+    # inverse DFT evaluated on the fine grid  shift + (-du..du) / up  around `shift`
+    kern_row = xp.exp(2j * np.pi / M * xp.outer(shift[0] + row / up, f_row))
+    kern_col = xp.exp(2j * np.pi / N * xp.outer(f_col, shift[1] + col / up))
     return xp.real(kern_row @ F @ kern_col)
 
 
@@ -142,7 +140,9 @@ def cross_correlation_shift(
         except (IndexError, ValueError):
             dxf = dyf = 0.0
 
-        shifts = np.array([x0, y0]) + (np.array(peak) - upsample_factor) / upsample_factor
+        # the fine grid returned by dft_upsample is centred on index du = ceil(1.5 * upsample_factor)
+        du = int(np.ceil(1.5 * upsample_factor))
+        shifts = np.array([x0, y0]) + (np.array(peak) - du) / upsample_factor
         shifts += np.array([dxf, dyf]) / upsample_factor
 
     shifts = (shifts + 0.5 * np.array(cc.shape)) % cc.shape - 0.5 * np.array(cc.shape)
